@@ -21,6 +21,37 @@ from sa.report import Report, Undecided  # noqa: E402
 LEVELS = {"C11": "model_checking"}
 
 
+def thorough_extras(prop: str, rep: Report) -> None:
+    """Thorough tier: additionally exercise the checker itself on scratch copies of the CURRENT tree - its self-test
+    variants (breaking / behaviour-preserving / repaired) and the kept seeded changes of this property. The outcome is
+    recorded in the evidence; it never changes the verdict about /repo (a variant whose anchor text is gone is STALE)."""
+    import json
+    import subprocess
+    import tempfile
+
+    verif = os.path.dirname(os.path.dirname(os.path.abspath(__file__)))
+    if os.environ.get("BAIZE_VERIF_NO_EXTRAS"):
+        return
+    env = dict(os.environ, BAIZE_VERIF_NO_EXTRAS="1")
+    with tempfile.TemporaryDirectory(prefix="baize_thorough_") as td:
+        j1 = os.path.join(td, "selftest.json")
+        r1 = subprocess.run([sys.executable, os.path.join(verif, "selftest", "run.py"), "--prop", prop, "--json", j1], capture_output=True, text=True, env=env)
+        try:
+            rep.extra["selftest"] = json.load(open(j1))["counts"]
+        except Exception:
+            rep.extra["selftest"] = {"error": (r1.stdout + r1.stderr)[-300:]}
+        j2 = os.path.join(td, "seeded.json")
+        r2 = subprocess.run([sys.executable, os.path.join(verif, "selftest", "seeded.py"), "--id", prop + "-", "--json", j2], capture_output=True, text=True, env=env)
+        try:
+            res = json.load(open(j2))
+            rep.extra["seeded"] = {o["id"]: o["status"] for o in res}
+        except Exception:
+            rep.extra["seeded"] = {"error": (r2.stdout + r2.stderr)[-300:]}
+    st = rep.extra.get("selftest", {})
+    if isinstance(st, dict) and st.get("FAIL"):
+        print(f"SELFTEST-WARN property={prop} {st} (checker self-test variants disagree on this tree; informational)")
+
+
 def main(argv=None) -> int:
     ap = argparse.ArgumentParser()
     ap.add_argument("prop")
@@ -34,9 +65,17 @@ def main(argv=None) -> int:
     try:
         mod = importlib.import_module(f"sa.props.{prop.lower()}")
         program = load_program()
+        if args.tier == "thorough":
+            # deeper bounds for the path-sensitive engine
+            from sa import flow
+
+            flow.Interp.STEP_LIMIT = 4000000
+            flow.Client.max_inline_depth = max(flow.Client.max_inline_depth, 6)
         mod.run(program, rep, args.tier)
-        if args.tier == "thorough" and hasattr(mod, "run_thorough"):
-            mod.run_thorough(program, rep)
+        if args.tier == "thorough":
+            if hasattr(mod, "run_thorough"):
+                mod.run_thorough(program, rep)
+            thorough_extras(prop, rep)
     except (AnalysisError, Undecided) as e:
         print(f"ANALYSIS-ERROR property={prop} {e}")
         rep.undecide("engine", str(e))
